@@ -17,20 +17,30 @@ RULE = ('(a) Utility::Match against the Gallina glob matcher: ALL patterns of le
         'missing/invalid/foreign type, names containing "!" or differing in case, default provider (fast path) and counting provider), and the '
         'real handlers through HttpHandler::ProcessRequest (GET/POST/DELETE /v1/objects/<type>[/<name>], POST /v1/actions/reschedule-check, '
         'joins); family nav-order: targets with a null reference evaluated right after targets with a non-null one, in inventory '
-        'order, plural-name list order and fast-path order. non-trivial = the case contains a query that returned at least one object or was refused; distinct = distinct script text')
+        'order, plural-name list order and fast-path order; family env-separation: the permission filter mentions a global constant (string, array, NodeName; '
+        'declared per case through ScriptGlobal), the request carries filter_vars of that very name with a value that would flip the verdict (and names of navigation fields, this, globals), '
+        'the user filter is on the generic path (match / regex / len / in) or on the targeted fast path, through GetFilterTargets with every handler\'s QueryDescription and the HTTP handlers; '
+        'family join-same-name: Hosts named like CheckCommand / EventCommand / TimePeriod / Endpoint / Zone objects of the fixture, permissions differing per joined type, several joins per request '
+        'in every order, hosts and services as primary type, every serialised join observed; 45% of the mixed cases also declare globals and use free-name / function-call atoms. non-trivial = the case contains a query that returned at least one object or was refused; distinct = distinct script text')
 TRUSTED = ['model: coq/Perm/PmModel.v (transcription of FilterUtility::HasPermission/CheckPermission/EvaluateFilter/GetFilterTargets, '
            'ApplyRule::GetTargetHosts/GetTargetServices, the filter_vars shadowing guard, the namespace resets of the permission frame, the joins loop of ObjectQueryHandler; glob matcher proved equivalent to a declarative '
            'spec and compared exhaustively with Utility::Match on short strings)',
-           'filters are the boolean DSL fragment {sc.name == "..", sc.vars.k == "..", sc.name == filter_var, &&, ||, !, true, false}, sc in '
-           '{host, service, obj, check_command, check_period, event_command, command_endpoint}, with '
-           'three-valued evaluation (true/false/ScriptError); the rest of the DSL is C15',
+           'filters are the DSL fragment {sc.name == "..", sc.vars.k == "..", sc.name == x, sc.vars.k == x, sc.name in x, match(x, sc.name), match("p", sc.name), len(sc.name) == n, '
+           'regex("^s$", sc.name), &&, ||, !, true, false}, sc in {host, service, obj, check_command, check_period, event_command, command_endpoint}, x a free name (global constant or '
+           'filter variable, string or array of strings), with three-valued evaluation (true/false/ScriptError); the rest of the DSL is C15',
+           'environment of a filter frame: free names of the permission filter resolve in the global constants only, those of the user filter in filter_vars then the globals '
+           '(tied by the source fact f_pm_perm_ns_private and by the env-separation family)',
            'source facts re-extracted each run: permission string and CheckPermission/GetFilterTargets call of every registered HTTP handler, '
            'navigation fields of Host/Service from the .ti files, structure of EvaluateFilter\'s binding loop (coq/Facts/Facts_c18.v)',
            'harness/ops_pm.cpp: exception classes (ScriptError / invalid_argument), object sets and HTTP status are observed; no log text']
 ASSUMPTIONS = ['ASCII permission strings and object names (String::ToLower and tolower agree on ASCII)',
                'object names are unique per type (ConfigObject registry) and contain no "!" (enforced by Icinga name validation)',
-               'no empty-string values in filters (Icinga treats "" as Empty in ==)', 'filter variables are not named obj/host/service',
+               'no empty-string values in filters (Icinga treats "" as Empty in ==)', 'filters do not mention the names EvaluateFilter binds (obj, host, service, navigation fields) as FREE names; as filter_vars KEYS those names are generated',
+               'a free name keeps its kind (string / array of strings) in globals and filter_vars; regex literals are [A-Za-z0-9-]+',
                'the used_by meta list and get_object() inside user filters are outside the statement (DESIGN.md C18)']
+
+
+FREE_SHARE = [0.0]     # share of atoms with free names / function calls in random filters (set per case)
 
 
 def hx(s):
@@ -48,6 +58,14 @@ SVCS = ['s1', 'S1', 'ping', 'Ping', 'a']
 VKEYS = ['os', 'env', 'k']
 VVALS = ['linux', 'Linux', 'win', 'prod', 'x']
 FVNAMES = ['v1', 'v2', 'v3']
+# global constants of the harness fixture (declared per case by pm_glob): name -> kind; NodeName is what vdrive's main() sets
+GLOBALS = {'PmTeam': 's', 'PmPat': 's', 'NodeName': 's', 'PmHosts': 'a'}
+NODENAME = 'vdrive-node'
+FVARR = 'xs'                       # an array-valued filter variable
+# names EvaluateFilter binds / keywords: as filter_vars KEYS they must stay without any effect on the permission filter
+BOUNDNAMES = ['check_command', 'check_period', 'event_command', 'command_endpoint', 'this', 'globals', 'obj', 'host', 'service']
+# objects of different types sharing a name (harness fixture: CheckCommand, EventCommand, TimePeriod, Endpoint, Zone)
+SHARED = ['pmx', 'pmy', 'pmz']
 # objects the navigation fields refer to (created once per harness process): scope char -> (script key, pool)
 NAV = {'k': ('cc', ['pmdummy', 'pmdummy2']), 'p': ('cp', ['pm-tp1', 'pm-tp2']), 'e': ('ec', ['pm-ev1', 'pm-ev2']),
        'z': ('ce', ['pm-sat-a', 'pm-sat-b'])}
@@ -112,6 +130,8 @@ def atom(rnd, hosts, svcs, kind):
     m = rnd.random()
     if rnd.random() < 0.2:
         return nav_atom(rnd)
+    if rnd.random() < FREE_SHARE[0]:
+        return free_atom(rnd, hosts, svcs, kind)
     sc = rnd.choice('hhhhosss' if kind == 'perm' else 'hhhoos')
     if m < 0.4:
         pool = (svcs + SVCS[:2]) if sc == 's' else (hosts + HOSTS[:2])
@@ -123,6 +143,70 @@ def atom(rnd, hosts, svcs, kind):
     if kind == 'user':
         return '%s%s:%s' % (rnd.choice('cC'), sc, hx(rnd.choice(FVNAMES)))
     return 'f'
+
+
+def free_atom(rnd, hosts, svcs, kind, names=None):
+    """an atom mentioning a free name (a global constant; in user filters also a filter variable) or a function call that
+    keeps a user filter off the targeted fast path"""
+    sc = rnd.choice('hhhhoss' if kind == 'perm' else 'hhhoos')
+    pool = list(GLOBALS) if kind == 'perm' else list(GLOBALS) + FVNAMES + [FVARR]
+    if names:
+        pool = names
+    x = rnd.choice(pool)
+    arr = GLOBALS.get(x) == 'a' or x == FVARR
+    m = rnd.random()
+    if kind == 'user' and m < 0.35:
+        k = rnd.random()
+        if k < 0.4:
+            return 'm%s:%s' % (sc, hx(rnd.choice(['*', 'h*', '?1', '*b*', 'W*', 'pm?', rnd.choice(hosts)])))
+        if k < 0.7:
+            return 'l%s:%d' % (sc, rnd.choice((1, 2, 2, 3, 4, len(rnd.choice(hosts)))))
+        return 'r%s:%s' % (sc, hx(rnd.choice(hosts + svcs + ['nope'])))
+    if arr:
+        return 'i%s:%s' % (sc, hx(x))
+    if x == 'PmTeam':
+        return 'w%s:%s:%s' % (sc, hx(rnd.choice(VKEYS)), hx(x))
+    if x == 'PmPat':
+        return 'M%s:%s' % (sc, hx(x))
+    k = rnd.random()
+    if k < 0.6:
+        return '%s%s:%s' % (rnd.choice('cC'), sc, hx(x))
+    if k < 0.8:
+        return 'M%s:%s' % (sc, hx(x))
+    return 'w%s:%s:%s' % (sc, hx(rnd.choice(VKEYS)), hx(x))
+
+
+def gen_globals(rnd, hosts, dense=0.8):
+    """pm_glob lines + the dictionary of what was declared"""
+    lines, g = [], {}
+    if rnd.random() < dense:
+        g['PmTeam'] = rnd.choice(VVALS)
+    if rnd.random() < dense:
+        g['PmPat'] = rnd.choice(['h*', '*1', 'w?b', '*', rnd.choice(hosts), 'nope*'])
+    g['NodeName'] = NODENAME        # always defined in the harness process (vdrive's main sets it): always declare it
+    if rnd.random() < dense:
+        g['PmHosts'] = rnd.sample(hosts, rnd.randint(0, min(2, len(hosts)))) + (['nope'] if rnd.random() < 0.3 else [])
+    for k, v in g.items():
+        if isinstance(v, list):
+            lines.append('pm_glob name=%s a=%s' % (hx(k), ','.join(hx(x) for x in v) or '-'))
+        else:
+            lines.append('pm_glob name=%s s=%s' % (hx(k), hx(v)))
+    return lines, g
+
+
+def fv_value(rnd, name, hosts, svcs):
+    """a value of the kind the name always has (string / array of strings)"""
+    if GLOBALS.get(name) == 'a' or name == FVARR:
+        return '@' + '+'.join(hx(x) for x in rnd.sample(hosts + ['nope'], rnd.randint(0, min(3, len(hosts) + 1))))
+    if name == 'PmTeam':
+        return hx(rnd.choice(VVALS))
+    if name in ('PmPat',):
+        return hx(rnd.choice(['*', '?*', 'h*', rnd.choice(hosts)]))
+    return hx(rnd.choice((svcs + hosts + ['nope', '*']) if svcs else (hosts + ['nope', '*'])))
+
+
+def gen_fv(rnd, names, hosts, svcs):
+    return ','.join('%s:%s' % (hx(n), fv_value(rnd, n, hosts, svcs)) for n in names)
 
 
 def rfilter(rnd, hosts, svcs, kind, depth=2):
@@ -238,10 +322,17 @@ def gen_query(rnd, tys, hosts, svcs, pairs, http=False):
         nonlocal fv
         toks = fast_filter(rnd, t, hosts, svcs, allnames) if kind == 'fast' else rfilter(rnd, hosts, svcs, 'user')
         parts.append('filter=' + ','.join(toks))
-        if any(x[0] in 'cC' for x in toks) or rnd.random() < 0.1:
-            names = FVNAMES if rnd.random() < 0.8 else rnd.sample(FVNAMES, 2)
-            pool = (svcs + hosts + ['nope']) if svcs else (hosts + ['nope'])
-            fv = ','.join('%s:%s' % (hx(n), hx(rnd.choice(pool))) for n in names)
+        if any(x[0] in 'cCwiM' for x in toks) or rnd.random() < 0.1:
+            names = list(FVNAMES if rnd.random() < 0.8 else rnd.sample(FVNAMES, 2))
+            if FREE_SHARE[0] > 0:
+                if rnd.random() < 0.7:
+                    names.append(FVARR)
+                names += [g for g in GLOBALS if rnd.random() < 0.4]          # the very names permission filters mention
+                names += [b for b in BOUNDNAMES[:6] if rnd.random() < 0.12]     # navigation fields, this, globals
+                if rnd.random() < 0.05:
+                    names.append(rnd.choice(BOUNDNAMES[6:]))                  # obj / host / service: no fast path
+                rnd.shuffle(names)
+            fv = gen_fv(rnd, names, hosts, svcs)
             parts.append('fv=' + fv)
 
     def add_names(which):
@@ -293,6 +384,11 @@ QDS = [('objects/query/Host', ['Host']), ('objects/query/Service', ['Service']),
 
 def gen_case(rnd, http_share):
     hosts, svcs, pairs, lines = gen_inventory(rnd)
+    FREE_SHARE[0] = 0.0
+    if rnd.random() < 0.45:
+        FREE_SHARE[0] = 0.3
+        gl, _ = gen_globals(rnd, hosts)
+        lines = gl + lines
     focus = [q[0] for q in rnd.sample(QDS, 2)]
     lines.append(gen_user(rnd, focus, hosts, svcs))
     lines.append('pm_load')
@@ -322,6 +418,9 @@ def gen_case(rnd, http_share):
         q = gen_query(rnd, tys, hosts, svcs, pairs)
         pcase = mangle_case(rnd, perm) if rnd.random() < 0.2 else perm
         lines.append(('pm_q types=%s perm=%s prov=%d ' % (','.join(tys), hx(pcase), rnd.choice((0, 0, 1))) + ' '.join(q)).rstrip())
+    if FREE_SHARE[0] > 0:
+        fam += '+globals'
+    FREE_SHARE[0] = 0.0
     return {'lines': lines, 'tags': {'family': fam}}
 
 
@@ -354,6 +453,7 @@ def gen_match_cases(rnd, tier):
 def gen_multi_type_case(rnd):
     """the actions' QueryDescription (Host + Service): a service addressed by name together with hosts selected by
     type / filter, under a permission filter that reads `service` (aims at the shared permission frame)"""
+    FREE_SHARE[0] = 0.0
     hosts, svcs, pairs, lines = gen_inventory(rnd)
     while not pairs:
         hosts, svcs, pairs, lines = gen_inventory(rnd)
@@ -389,6 +489,7 @@ def gen_multi_type_case(rnd):
 
 def gen_join_case(rnd):
     """GET /v1/objects/services with joins under users holding objects/query/Service and (filtered) objects/query/Host"""
+    FREE_SHARE[0] = 0.0
     hosts, svcs, pairs, lines = gen_inventory(rnd)
     while not pairs:
         hosts, svcs, pairs, lines = gen_inventory(rnd)
@@ -417,6 +518,7 @@ def gen_nav_order_case(rnd):
     """permission filters that read a joined object (command_endpoint / check_period / event_command / check_command of the
     target, `host` of a service), inventories in which targets with a null reference follow targets with a non-null one, and
     evaluation orders chosen by the request: inventory order (type, type+filter), plural-name list order, fast-path order"""
+    FREE_SHARE[0] = 0.0
     sc = rnd.choice('zzzpek')
     key, pool = NAV[sc]
     t = rnd.choice(['Host', 'Host', 'Service'])
@@ -496,6 +598,198 @@ def gen_nav_order_case(rnd):
     return {'lines': lines, 'tags': {'family': 'nav-order'}}
 
 
+def gen_env_case(rnd):
+    """family env-separation: the permission filter mentions a global constant (a string, an array, NodeName); requests carry
+    filter_vars with that very name (a value that would flip the verdict), with names of navigation fields, `this`, `globals`;
+    the user's filter is on the generic path (function calls: match, regex, len, in) or on the targeted fast path; every handler
+    entry: query / modify / delete QueryDescriptions, the actions' one, and the HTTP handlers"""
+    FREE_SHARE[0] = 0.0
+    t = rnd.choice(['Host', 'Host', 'Service'])
+    nh = rnd.choice((2, 3, 3, 4))
+    hosts = rnd.sample(HOSTS + [NODENAME], nh)
+    key = rnd.choice(VKEYS)
+    team, other = rnd.sample(VVALS, 2)
+    lines, svcs, pairs = [], [], []
+    for h in hosts:
+        lines.append('pm_host name=%s vars=%s:%s%s' % (hx(h), hx(key), hx(rnd.choice([team, other, other])), nav_attrs(rnd, 0.15)))
+    for h in hosts:
+        for sv in rnd.sample(SVCS, rnd.choice((0, 1, 1, 2)) if t == 'Host' else rnd.choice((1, 1, 2))):
+            lines.append('pm_svc host=%s name=%s vars=%s:%s%s' % (hx(h), hx(sv), hx(key), hx(rnd.choice([team, other])), nav_attrs(rnd, 0.15)))
+            svcs.append(sv); pairs.append((h, sv))
+    admitted = rnd.sample(hosts, rnd.randint(1, max(1, nh - 1)))
+    g = {'PmTeam': team, 'PmPat': rnd.choice(['h*', 'w*', '*1', admitted[0]]), 'NodeName': NODENAME, 'PmHosts': admitted}
+    glines = ['pm_glob name=%s %s' % (hx(k), ('a=' + (','.join(hx(x) for x in v) or '-')) if isinstance(v, list) else 's=' + hx(v)) for k, v in g.items()]
+    sc = 'h' if t == 'Host' else rnd.choice('hhs')
+    gname = rnd.choice(['PmTeam', 'PmTeam', 'PmHosts', 'NodeName', 'PmPat'])
+    pf = {'PmTeam': ['w%s:%s:%s' % (sc, hx(key), hx('PmTeam'))], 'PmHosts': ['i%s:%s' % ('h', hx('PmHosts'))],
+          'NodeName': ['%sh:%s' % (rnd.choice('cC'), hx('NodeName'))], 'PmPat': ['Mh:%s' % hx('PmPat')]}[gname]
+    k = rnd.random()
+    if k < 0.2:
+        pf = pf + ['not']
+    elif k < 0.4:
+        pf = pf + [atom(rnd, hosts, svcs or SVCS[:1], 'perm'), rnd.choice(['and', 'or'])]
+    q = 'objects/query/' + t
+    es = [hx(mangle_case(rnd, rnd.choice([q, 'objects/query/*', 'objects/*']))) + '@' + ','.join(pf),
+          hx(mangle_case(rnd, rnd.choice(['actions/reschedule-check', 'actions/*']))) + '@' + ','.join(pf)]
+    if rnd.random() < 0.6:
+        es.append(hx(rnd.choice(['objects/modify/*', 'objects/modify/' + t, 'objects/delete/' + t])) + '@' + ','.join(pf))
+    if rnd.random() < 0.15:
+        es.append(hx('objects/query/' + t))       # an unfiltered entry next to it (the code keeps the filter)
+    rnd.shuffle(es)
+    lines = glines + lines
+    lines.append('pm_user perms=' + ';'.join(es))
+    lines.append('pm_load')
+    lines.append('pm_perm perm=' + hx(q))
+    low = t.lower()
+
+    def flip():
+        """a filter_vars value for gname that would admit other objects if the permission filter saw it"""
+        if gname == 'PmTeam':
+            return hx(other)
+        if gname == 'PmHosts':
+            return '@' + '+'.join(hx(x) for x in hosts)
+        if gname == 'NodeName':
+            return hx(rnd.choice([h for h in hosts if h != NODENAME] or hosts))
+        return hx('*')
+
+    for i in range(rnd.randint(5, 8)):
+        names = [gname] if rnd.random() < 0.9 else []
+        names += [x for x in GLOBALS if x != gname and rnd.random() < 0.3]
+        names += [b for b in BOUNDNAMES[:6] if rnd.random() < 0.2]
+        k = rnd.random()
+        if k < 0.55:       # generic path: a function call in the user's filter
+            a = rnd.choice(['m%s:%s' % (sc, hx(rnd.choice(['*', '*', '?*', 'h*', 'w*']))), 'M%s:%s' % (sc, hx('pat')),
+                            'l%s:%d' % (sc, rnd.choice((1, 2, 3, len(hosts[0])))), 'i%s:%s' % (sc, hx(FVARR)),
+                            'r%s:%s' % (sc, hx(rnd.choice(hosts))), 'mo:%s' % hx('*')])
+            toks = [a]
+            if a[0] == 'M':
+                names.append('pat')
+            if a[0] == 'i':
+                names.append(FVARR)
+            if rnd.random() < 0.3:
+                toks = toks + rfilter(rnd, hosts, svcs or SVCS[:1], 'user', 1) + [rnd.choice(['and', 'or'])]
+            if rnd.random() < 0.15:
+                toks = toks + ['not', 'not']
+        elif k < 0.85:     # targeted fast path (or a near miss)
+            order = rnd.sample(hosts, rnd.randint(1, len(hosts))) if t == 'Host' else rnd.sample(pairs, rnd.randint(1, len(pairs)))
+            toks = []
+            for j, o in enumerate(order):
+                if t == 'Host':
+                    if rnd.random() < 0.25:
+                        toks += ['ch:' + hx('v1')]; names.append('v1')
+                    else:
+                        toks += ['nh:' + hx(o)]
+                else:
+                    toks += ['nh:' + hx(o[0]), 'ns:' + hx(o[1]), 'and']
+                if j:
+                    toks.append('or')
+        else:
+            toks = ['t']
+        rnd.shuffle(names)
+        fvs = []
+        for n in dict.fromkeys(names):
+            if n == gname:
+                fvs.append('%s:%s' % (hx(n), flip()))
+            elif n == 'pat':
+                fvs.append('%s:%s' % (hx(n), hx(rnd.choice(['*', '?*', 'h*']))))
+            else:
+                fvs.append('%s:%s' % (hx(n), fv_value(rnd, n, hosts, svcs)))
+        qp = 'type=%s filter=%s' % (t, ','.join(toks)) + ((' fv=' + ','.join(fvs)) if fvs else '')
+        if rnd.random() < 0.15:
+            o = rnd.choice(hosts) if t == 'Host' else '%s!%s' % rnd.choice(pairs)
+            qp = '%s=%s ' % (low, hx(o)) + qp
+        m = rnd.random()
+        if m < 0.4:
+            perm, tys = rnd.choice([(q, [t]), (q, [t]), ('objects/modify/' + t, [t]), ('objects/delete/' + t, [t]),
+                                    ('actions/reschedule-check', ['Host', 'Service']), ('actions/acknowledge-problem', ['Host', 'Service'])])
+            lines.append('pm_q types=%s perm=%s prov=%d %s' % (','.join(tys), hx(perm), rnd.choice((0, 0, 0, 1)), qp))
+        elif m < 0.7:
+            lines.append('pm_http kind=query ptype=%ss %s' % (low, ' '.join(x for x in qp.split() if not x.startswith('type='))))
+        elif m < 0.82:
+            lines.append('pm_http kind=modify ptype=%ss %s' % (low, ' '.join(x for x in qp.split() if not x.startswith('type='))))
+        else:
+            lines.append('pm_http kind=action act=reschedule-check ' + qp)
+    return {'lines': lines, 'tags': {'family': 'env-separation'}}
+
+
+JOINFIELDS = ['check_command', 'check_period', 'event_command', 'command_endpoint', 'host']
+JTYPES = {'check_command': 'CheckCommand', 'check_period': 'TimePeriod', 'event_command': 'EventCommand', 'command_endpoint': 'Endpoint', 'host': 'Host'}
+
+
+def gen_join_names_case(rnd):
+    """family join-same-name: Hosts named like the fixture's CheckCommand / EventCommand / TimePeriod / Endpoint objects
+    (pmx, pmy, pmz), references to those objects, permissions that differ per joined type (plain, filtered on the name, absent,
+    wildcard with filter), several joins in one request in every order, hosts and services as primary type"""
+    FREE_SHARE[0] = 0.0
+    names = list(SHARED)
+    rnd.shuffle(names)
+    hosts = names[:rnd.choice((1, 2, 2, 3))] + rnd.sample(['h1', 'web'], rnd.choice((0, 1)))
+    rnd.shuffle(hosts)
+    lines, svcs, pairs = [], [], []
+
+    def refs(dense):
+        r = ''
+        for sc_, (key, pool) in NAV.items():
+            if rnd.random() < dense:
+                r += ' %s=%s' % (key, hx(rnd.choice(SHARED + SHARED + pool[:1])))
+        return r
+    for h in hosts:
+        vs = ' vars=%s:%s' % (hx('os'), hx(rnd.choice(VVALS))) if rnd.random() < 0.5 else ''
+        lines.append('pm_host name=%s%s%s' % (hx(h), vs, refs(0.7)))
+    for h in hosts:
+        for sv in rnd.sample(SVCS[:3] + SHARED[:1], rnd.choice((1, 1, 2))):
+            lines.append('pm_svc host=%s name=%s%s' % (hx(h), hx(sv), refs(0.75)))
+            svcs.append(sv); pairs.append((h, sv))
+    t = rnd.choice(['Service', 'Service', 'Host'])
+    es = [hx(mangle_case(rnd, 'objects/query/' + t))]
+    target = rnd.choice(SHARED)
+    for jt in ['Host', 'CheckCommand', 'TimePeriod', 'EventCommand', 'Endpoint']:
+        if jt == t:
+            continue
+        k = rnd.random()
+        pn = mangle_case(rnd, rnd.choice(['objects/query/' + jt, 'objects/query/' + jt, 'objects/query/' + jt[:-1] + '?', 'objects/*/' + jt]))
+        if k < 0.3:
+            es.append(hx(pn))                                                       # every object of that type
+        elif k < 0.75:
+            nm = rnd.choice([target, target, rnd.choice(SHARED), 'nope'])
+            f = rnd.choice([['no:' + hx(nm)], ['no:' + hx(nm), 'not'], ['No:' + hx(nm)], ['mo:' + hx(nm[:2] + '?')],
+                            ['nh:' + hx(nm)] if jt == 'Host' else ['no:' + hx(nm)],
+                            ['vo:%s:%s' % (hx('os'), hx(rnd.choice(VVALS)))]])
+            es.append(hx(pn) + '@' + ','.join(f))
+        # else: no permission for that type
+    if rnd.random() < 0.2:
+        es.append(hx(mangle_case(rnd, 'objects/query/*')) + '@' + ','.join(rnd.choice([['no:' + hx(target)], ['no:' + hx(target), 'not']])))
+    rnd.shuffle(es)
+    lines.append('pm_user perms=' + ';'.join(es))
+    lines.append('pm_load')
+    for jt in rnd.sample(['Host', 'Endpoint', 'CheckCommand', 'EventCommand', 'TimePeriod'], 2):
+        lines.append('pm_perm perm=' + hx('objects/query/' + jt))
+    low = t.lower()
+    fields = JOINFIELDS if t == 'Service' else JOINFIELDS[:4]
+    for i in range(rnd.randint(4, 7)):
+        k = rnd.random()
+        if k < 0.2:
+            sel = ' joins=2'
+        else:
+            fs = rnd.sample(fields, rnd.randint(2, len(fields)))          # request order: every permutation over the runs
+            sel = ' jsel=' + ','.join(fs)
+            if rnd.random() < 0.1:
+                sel += ' joins=1'
+        qp = ''
+        k = rnd.random()
+        if k < 0.25:
+            order = rnd.sample(hosts, rnd.randint(1, len(hosts))) if t == 'Host' else rnd.sample(pairs, rnd.randint(1, len(pairs)))
+            qp = ' %ss=%s' % (low, ','.join(hx(o if t == 'Host' else '%s!%s' % o) for o in order))
+        elif k < 0.4:
+            o = rnd.choice(hosts) if t == 'Host' else '%s!%s' % rnd.choice(pairs)
+            qp = ' name=%s' % hx(o)
+        elif k < 0.6:
+            qp = ' filter=' + ','.join(rnd.choice([['mo:' + hx('*')], ['nh:' + hx(rnd.choice(hosts))], ['t'], ['lo:3', 'not']]))
+        lines.append('pm_http kind=query ptype=%ss%s%s' % (low, sel, qp))
+    return {'lines': lines, 'tags': {'family': 'join-same-name'}}
+
+
+
 def generate(seed, tier):
     rnd = random.Random(seed)
     cases = gen_match_cases(rnd, tier)
@@ -508,6 +802,10 @@ def generate(seed, tier):
         cases.append(gen_join_case(rnd))
     for i in range(n // 5):
         cases.append(gen_nav_order_case(rnd))
+    for i in range(n // 4):
+        cases.append(gen_env_case(rnd))
+    for i in range(n // 6):
+        cases.append(gen_join_names_case(rnd))
     return cases
 
 
@@ -623,6 +921,21 @@ def extra_stats(cases, impl):
             except Exception:
                 c['nav_stats_errors'] += 1
     for cs in cases:
+        pfree = set()
+        for l in cs['lines']:
+            if l.startswith('pm_user'):
+                for e in l.split('=', 1)[1].split(';'):
+                    if '@' in e:
+                        for tok in e.split('@', 1)[1].split(','):
+                            if tok[:1] in 'cCwiM' and ':' in tok:
+                                pfree.add(tok.split(':')[-1])
+            elif l.startswith(('pm_q', 'pm_http')) and pfree and ' fv=' in l:
+                keys = set(x.split(':')[0] for x in l.split(' fv=', 1)[1].split()[0].split(','))
+                if keys & pfree:
+                    c['requests_whose_filter_vars_name_a_free_name_of_the_permission_filter'] += 1
+                    if any(t[:1] in 'mMlri' for t in (l.split(' filter=', 1)[1].split()[0].split(',') if ' filter=' in l else [])):
+                        c['...of_those_with_user_filter_on_generic_path'] += 1
+    for cs in cases:
         for l in cs['lines']:
             op = l.split()[0]
             if op == 'pm_q':
@@ -631,6 +944,11 @@ def extra_stats(cases, impl):
                 c['q_shape:' + shape] += 1
             elif op == 'pm_http':
                 c['http:' + dict(p.split('=', 1) for p in l.split()[1:] if '=' in p).get('kind', '?')] += 1
+                kv = dict(p.split('=', 1) for p in l.split()[1:] if '=' in p)
+                if 'jsel' in kv or kv.get('joins'):
+                    c['http_join_requests'] += 1
+            elif op == 'pm_glob':
+                c['globals_declared'] += 1
             elif op == 'pm_user':
                 n = 0 if l.endswith(('=-', '=none')) else l.count(';') + 1
                 c['user_entries:%d' % n] += 1
